@@ -1,6 +1,6 @@
 """check configuration for C14 (loaded by lib/zvprops.py)"""
 
-PROP = {'gen_tables': ['Callers', 'TransSweeten'],
+PROP = {'gen_tables': ['Callers', 'TransSweeten', 'TransMessage'],
  'rule': 'ops: every argument shape over {Field, error, string, int, nil, struct} up to length 4 (quick) / 8 (thorough, 2 015 539 shapes, in '
          'batches of 2048) through With, WithLazy and a rotating *w method; random argument lists of length ≤ 12 (structured pair/field/error '
          'stream + hostile stream: empty/duplicate/reserved/non-UTF-8 keys, typed-nil errors, zero Fields, 12 kinds of other values) through '
